@@ -28,6 +28,10 @@ divdiff(const double* x, const double* y, size_t n)
 unsigned int
 factorial(unsigned int n)
 {
+	/* 0! == 1 (n-1 would wrap around for n == 0) */
+	if (n < 2)
+		return (1);
+	
 	int acc = n;
 	
 	for (unsigned int i = n-1 ; i > 1; i--)
